@@ -92,10 +92,16 @@ def atoms_of(ode):
     return d
 
 
+OLDER_SAVE = "parameters(zz_old_p=1.0)\nstates(zz_old_state=0.5)\n\nzz_old_monitor = zz_old_p * 2\ndzz_old_state_dt = -zz_old_state\n"
+
+
 def roundtrip(ode, work):
     from gotranx.load import load_ode
 
     path = os.path.join(work, f"{ode.name or 'model'}.ode")
+    if not os.path.exists(path):
+        # the target usually exists already: an older save of another version of the model
+        open(path, "w").write(OLDER_SAVE)
     sv = C.call(ode.save, path)
     if not sv.ok:
         return None, ("save_raises", sv)
